@@ -589,6 +589,7 @@ func TestVerifC04(t *testing.T) {
 	mark := func(c string) { cur.Store(c); tick.Add(1) }
 
 	files := vfC04Files()
+	var corpusChild []vfC04BatchCase
 	// ------------------------------------------------ corpus: explicit witnesses
 	for _, l := range vfutil.Corpus("C04") {
 		parts := strings.SplitN(l, " ", 3)
@@ -607,6 +608,13 @@ func TestVerifC04(t *testing.T) {
 				tok = "u"
 			}
 			s.Op(fmt.Sprintf("c04parse %d %s", maxVer, parts[1]), tok)
+		case "sendchild": // sendchild <file name|foreign> <hexdata> <opts-json>: as "send", in a supervised child (hang / oom witnesses)
+			p4 := strings.SplitN(l, " ", 4)
+			var o vfC04Opts
+			if len(p4) < 4 || json.Unmarshal([]byte(p4[3]), &o) != nil {
+				t.Fatalf("bad corpus line %q", l)
+			}
+			corpusChild = append(corpusChild, vfC04BatchCase{File: p4[1], Data: p4[2], Size: int64(len(vfutil.UnHex(p4[2]))), Opts: o})
 		case "send": // send <file name> <hexdata> <opts-json>: full pipeline on a (damaged) copy of a built-in file
 			p4 := strings.SplitN(l, " ", 4)
 			var o vfC04Opts
@@ -624,6 +632,22 @@ func TestVerifC04(t *testing.T) {
 			r := vfC04Send(t, kvs, data, int64(len(data)), o)
 			vfC04Monitor(s, "corpus-send", p4[1], data, o, r)
 			s.Count("case_corpus")
+		}
+	}
+
+	if len(corpusChild) > 0 {
+		mark("corpus child batch")
+		for i, r := range vfC04RunBatch(s, corpusChild, mark) {
+			c := corpusChild[i]
+			rp := map[string]interface{}{"scenario": "corpus-sendchild", "file": c.File, "rdb": c.Data, "opts": c.Opts.String()}
+			s.Count("case_corpus")
+			if r.Died != "" {
+				s.Count("viol_" + r.Died)
+				s.Violate(r.Died, "damaged snapshot (corpus witness): the replay does not return an error, the process "+r.Died+"s", rp)
+			} else if c.File != "foreign" && !r.All && (!r.Err || r.Cp) {
+				s.Count("viol_incomplete-checkpointed")
+				s.Violate("incomplete-checkpointed", fmt.Sprintf("corpus-sendchild: keys %q not applied, err=%v cp=%v", r.Missing, r.Err, r.Cp), rp)
+			}
 		}
 	}
 
